@@ -11,7 +11,7 @@ use serde_json::json;
 
 use crate::{hist::ShardArgs, hs::TW};
 
-pub const POOL: [&str; 10] = [
+pub const POOL: [&str; 11] = [
     r"^a (\d+)$",
     r"^a (.*)$",
     r"^(a|b) (\d+)?$",
@@ -22,11 +22,13 @@ pub const POOL: [&str; 10] = [
     r"b",
     r"^$",
     r"(\d+) (é|apples?)",
+    // more than nine groups, one of them named and optional
+    r"^(1)(2)(3)(4)(5)(6)(7)(8)(9)(a)(?P<k>b)?(c)$",
 ];
-pub const TEXTS: [&str; 14] = [
+pub const TEXTS: [&str; 16] = [
     "a 1", "a x", "b 2", "b ", "foo is 42", "xyz", "xz", "éßü", "", "zzz", "a 12",
     // unanchored matches that start at an offset > 0 (after ASCII and after multi-byte text)
-    "I have 12 apples", "ßß 7 é", "a 3 apple pie",
+    "I have 12 apples", "ßß 7 é", "a 3 apple pie", "123456789ac", "123456789abc",
 ];
 
 thread_local! {
